@@ -7,6 +7,7 @@ LEVEL = "exploration"
 SHARDS = {"quick": 8, "thorough": 16}
 TIMEOUT = {"quick": 900, "thorough": 7200}
 REQUIRED = {"public_data": 600, "no_private": 100, "leaf_scan": 100, "hardened_refused": 100}
+ANCHORS = ['base_wallet:BaseWallet.from_extended_key', 'base_wallet:BaseWallet.by_path', 'base_wallet:BaseWallet.node_extended_keys', 'base_wallet:BaseWallet.node_extended_private_key', 'paper_wallet:PaperWallet.group', 'base_wallet:BaseWallet.watch_only']
 RULE = ("full wallet W from a random seed x both networks; export node E at a random path of depth 0..6 (hardened steps "
         "allowed above E); ALL six public version prefixes over the run; watch-only wallet V = from_extended_key(E.xpub(v)); "
         "non-hardened sub-paths of length 0..5 with edge indexes; five address kinds; every string leaf V returns is "
